@@ -60,6 +60,15 @@ let rec print_sexp (b : Buffer.t) (x : sexp) : unit =
     List.iteri (fun i y -> if i > 0 then Buffer.add_char b ' '; print_sexp b y) l;
     Buffer.add_char b ')'
 
+(* C14: int(round((length / actual) * available)) as CPython computes it: IEEE double division and
+   multiplication, then round-half-to-even (float.__round__).  The Coq model is parametric in this function. *)
+let float_share (len : z) (actual : z) (avail : z) : z =
+  let f x = float_of_int (int_of_z x) in
+  let v = (f len /. f actual) *. f avail in
+  let r = Float.round v in
+  let r = if Float.abs (v -. r) = 0.5 then 2.0 *. Float.round (v /. 2.0) else r in
+  z_of_int (int_of_float r)
+
 let table : (string * (sexp -> sexp)) list = [
   ("C12", run_C12);
   ("C10", run_C10);
@@ -79,6 +88,7 @@ let table : (string * (sexp -> sexp)) list = [
   ("C19", run_C19);
   ("C11", run_C11);
   ("C13", run_C13);
+  ("C14", run_C14 float_share);
 ]
 
 let () =
